@@ -322,7 +322,7 @@ class Algebra(object):
         b = _Builder(self, nfa, fl)
         s = nfa.new()
         e = nfa.new()
-        b.seq(tree, s, e)
+        b.seq(tree, s, e, mode in ("search", "match"))
         start, acc = s, e
         if mode in ("search",):
             p = nfa.new()
@@ -708,7 +708,8 @@ class _Builder(object):
                 shapes.append((cids + (self.alg.cs(((10, 10),)),), True))
         return shapes
 
-    def seq(self, items, s, e):
+    def seq(self, items, s, e, tail=False):
+        """`tail`: whatever follows this sequence is "any text" (the end of a pattern used in search / match mode)"""
         cur = s
         items = list(items)
         if not items:
@@ -716,13 +717,20 @@ class _Builder(object):
             return
         for i, it in enumerate(items):
             nxt = e if i == len(items) - 1 else self.nfa.new()
-            self.item(it, cur, nxt)
+            self.item(it, cur, nxt, tail and i == len(items) - 1)
             cur = nxt
 
-    def item(self, it, s, e):
+    def item(self, it, s, e, tail=False):
         op, av = it
         C = sre_c
         nfa = self.nfa
+        if tail and op is C.ASSERT and av[0] > 0:
+            # a positive look-ahead closing the pattern, any text allowed after the match: "R follows" is "R, then any text"
+            try:
+                self.window_shapes(list(av[1]))
+            except Unsupported:
+                self.seq(list(av[1]), s, e)
+                return
         if op is C.LITERAL:
             nfa.add(s, CHAR, self.alg.cs(self.lit(av)), e)
         elif op is C.NOT_LITERAL:
@@ -738,12 +746,12 @@ class _Builder(object):
                 nfa.add(s, CHAR, self.alg.cs(iv), e)
         elif op is C.BRANCH:
             for alt in av[1]:
-                self.seq(alt, s, e)
+                self.seq(alt, s, e, tail)
         elif op is C.SUBPATTERN:
             group, add_flags, del_flags, p = av
             if add_flags or del_flags:
                 raise Unsupported("inline flags")
-            self.seq(p, s, e)
+            self.seq(p, s, e, tail)
         elif op in (C.MAX_REPEAT, C.MIN_REPEAT) or op is getattr(C, "POSSESSIVE_REPEAT", None):
             if op is getattr(C, "POSSESSIVE_REPEAT", None):
                 raise Unsupported("possessive repeat")
